@@ -131,7 +131,7 @@ Proof.
   destruct (is_chunked_opt h (r_status r0) (r_clen r0)) as [ch|].
   2:{ intros H. injection H as <- <- <- <-. destruct P0 as [A _]. split; [exact A|].
       intros e He. injection He as <-. right. reflexivity. }
-  set (nb := match r_clen r with Some L => L | None => len (f_avail fl) end).
+  set (nb := match r_clen r with Some L => L - r_sent r | None => len (f_avail fl) end).
   assert (Q2 : forall x2 fs2 e2, (if ch then sockop (EvRaw (hex_upper nb ++ CRLF)) fs0 else (None, fs0, [])) = (x2, fs2, e2) -> body_post x2 e2).
   { intros x2 fs2 e2. destruct ch.
     - apply sockop_body_post. reflexivity.
@@ -537,7 +537,7 @@ Proof.
   { intros H. injection H as <- <- <- <-. split; [exact A0|exact F0]. }
   destruct (is_chunked_opt h (r_status r0) (r_clen r0)) as [ch|].
   2:{ intros H. injection H as <- <- <- <-. split; [|exact F0]. eapply acct_weaken. exact A0. }
-  set (nb := match r_clen r with Some L => L | None => len (f_avail fl) end).
+  set (nb := match r_clen r with Some L => L - r_sent r | None => len (f_avail fl) end).
   assert (Q : forall d fsx x2 fs2 e2, (if ch then sockop (EvRaw d) fsx else (None, fsx, [])) = (x2, fs2, e2) -> acct r0 r0 x2 e2).
   { intros d fsx x2 fs2 e2. destruct ch.
     - intros E. eapply acct_sock_plain; [exact E|..]; intros f; cbn; try reflexivity; exact I.
